@@ -267,7 +267,7 @@ pub fn run(ctx: &Ctx) {
 
     // (c2) long payloads: counts whose varint needs 3 and 4 bytes
     {
-        let lens: Vec<usize> = vec![16383, 16384, 16385, 20000, 65535, 65536, 2097151, 2097152, 2097153];
+        let lens: Vec<usize> = vec![16383, 16384, 16385, 20000, 32767, 32768, 40000, 49151, 49152, 65535, 65536, 81920, 2097151, 2097152, 2097153, 3000000, 4194303, 4194304];
         let kinds = 5u64;
         let lens_ref = &lens;
         ctx.par_range("long-payloads", lens.len() as u64 * kinds, move |i, l| {
